@@ -45,6 +45,7 @@ impl AckCb {
 impl Callback for AckCb {
     fn send(mut self, res: Result<(), std::io::Error>) {
         self.sent = true;
+        crate::props::kill9::on_ack_in_child(self.flush, res.is_ok());
         trace::on_ack(self.flush, &res);
     }
 }
